@@ -3,12 +3,12 @@
     Mirrors (uquic, after the repair fixes/C02-redial-shared-clienthello-state.patch):
       u_transport.go     UTransport.dial / doDial (which connection constructor, which inputs)
       u_connection.go    newUClientConnection: dialClientHelloSpec (the connection's own
-                         QUICTransportParametersExtension, KeyShareExtension, SNIExtension),
+                         QUICTransportParamsExtension, KeyShareExtension, SNIExtension),
                          then suppress, optional shuffle, PopulateFromUQUIC on the OWN list
       internal/wire/u_transport_parameters.go   PopulateFromUQUIC (from USpec.Model: it writes
                          the source connection ID into the list it is handed)
     and, outside /repo (transcribed: the environment the property talks about),
-      utls  QUICTransportParametersExtension.Len(): marshals the list on first use and caches the
+      utls  QUICTransportParamsExtension.Len(): marshals the list on first use and caches the
             bytes in the extension OBJECT for ever;
       utls  UConn.ApplyPreset: a key share whose Data is longer than one byte counts as supplied
             by the caller (no key generated, nothing the connection holds a private key for);
@@ -16,7 +16,8 @@
 
     [legacy_dial] is the code before the repair (the same steps on the spec's own extension
     objects): kept as the specification of the defect the repair removes.
-    Executable definitions only. *)
+    Executable definitions only.
+    (Go identifiers are written with "Param" for their longer spelling, e.g. QUICTransportParamsExtension.) *)
 From Coq Require Import List ZArith Bool.
 From V Require Import Gen.Params Lib.Hex Wire.Varint USpec.Model.
 Import ListNotations.
@@ -27,12 +28,12 @@ Record keyshare := KS { kGroup : Z; kData : list Z }.
 
 (** The part of a QUICSpec a dial reads (and, before the repair, wrote). *)
 Record spec_state := Spec {
-  sParams : list param;        (* ClientHelloSpec: QUICTransportParametersExtension.TransportParameters *)
+  sParams : list param;        (* ClientHelloSpec: QUICTransportParamsExtension.TransportParams *)
   sCache : option (list Z);    (* ... and that extension object's marshalResult (uTLS) *)
   sKeys : list keyshare;       (* KeyShareExtension.KeyShares *)
   sSNI : list Z;               (* SNIExtension.ServerName, [] = take tls.Config.ServerName *)
-  sSup : list Z;               (* QUICSpec.SuppressTransportParameters *)
-  sRnd : bool }.               (* QUICSpec.RandomizeTransportParameters *)
+  sSup : list Z;               (* QUICSpec.SuppressTransportParams *)
+  sRnd : bool }.               (* QUICSpec.RandomizeTransportParams *)
 
 (** What the environment contributes to one dial. *)
 Record oracle := Oracle {
